@@ -204,3 +204,47 @@ Fixpoint seen_by (is_letter is_number : N -> bool) (to_lower : N -> N) (c : icfg
 
 Definition field_tokens (meta : list token) (key : list N) : list (list N) :=
   map snd (filter (fun t : token => list_eqb_N (fst t) key) meta).
+
+(* ------------------------------------------------------------------ the other filter forms of SeqQL *)
+(* parser/seqql_filter.go parseSeqQLFieldFilter: the case rule is fixed BEFORE the form is looked at —
+   `_exists_` forces case sensitivity for the range form, the in(...) form and the plain form alike. *)
+Definition eff_sens (is_exists sens : bool) : bool := is_exists || sens.
+
+Section Forms.
+  Variables (is_letter is_number : N -> bool) (to_lower : N -> N).
+
+  (* parseFilterIn: every member goes through the same parseFulltextSearchFilter with the same type and
+     case rule; the result is the OR of the members *)
+  Fixpoint query_in (t : ttype) (sens : bool) (ms : list (list N)) : option (list (list (list term))) :=
+    match ms with
+    | [] => Some []
+    | s :: r =>
+      match query_lits is_letter is_number to_lower t sens s, query_in t sens r with
+      | Some l, Some ls => Some (l :: ls)
+      | _, _ => None
+      end
+    end.
+
+  (* parseSeqQLTokenRange / parseRangeTerm: both bounds through parseSeqQLKeyword with the same case rule;
+     exactly one term each *)
+  Definition range_term (sens : bool) (s : list N) : option term :=
+    match qkw to_lower sens s with [t] => Some t | _ => None end.
+End Forms.
+
+Definition in_finds (members : list (list (list term))) (toks : list (list N)) : bool :=
+  existsb (fun lits => query_finds lits toks) members.
+
+(* Go string comparison *)
+Fixpoint bytes_le (a b : list N) : bool :=
+  match a, b with
+  | [], _ => true
+  | _ :: _, [] => false
+  | x :: a', y :: b' => if x <? y then true else if y <? x then false else bytes_le a' b'
+  end.
+
+(* pattern.rangeTextSearch with both bounds included *)
+Definition range_finds (from to : term) (toks : list (list N)) : bool :=
+  match from, to with
+  | TText f, TText t => existsb (fun tok => bytes_le f tok && bytes_le tok t) toks
+  | _, _ => nonempty toks
+  end.
